@@ -107,3 +107,25 @@ def explore(fn, solver=None, assumptions=(), max_paths=20000, stats=None):
 
 def is_concrete(v):
     return z3.is_bv_value(v) or z3.is_true(v) or z3.is_false(v) or z3.is_int_value(v)
+
+
+def robust_check(solver, retry_timeout_ms=120000):
+    """solver.check(); on unknown retry once in a fresh solver (other tactic, longer timeout). Returns (result, model or None)"""
+    r = solver.check()
+    if r == z3.sat:
+        return r, solver.model()
+    if r == z3.unsat:
+        return r, None
+    for mk in (lambda: z3.Then('simplify', 'solve-eqs', 'bit-blast', 'sat').solver(), lambda: z3.SolverFor('QF_AUFBV')):
+        try:
+            s2 = mk()
+            s2.set('timeout', retry_timeout_ms)
+            s2.add(*solver.assertions())
+            r2 = s2.check()
+        except z3.Z3Exception:
+            continue
+        if r2 == z3.sat:
+            return r2, s2.model()
+        if r2 == z3.unsat:
+            return r2, None
+    return z3.unknown, None
